@@ -7,7 +7,7 @@ use serde_json::{Value as J, json};
 
 use crate::Args;
 use crate::chains::{ALL_PRESETS, DrawOut, Preset, chain_on, start_point, value_to_json};
-use crate::dens::{Logged, Target};
+use crate::dens::{Fault, Logged, Target};
 use crate::report::Report;
 use crate::util::{Fnv, HRng};
 
@@ -91,6 +91,19 @@ fn run_case(report: &mut Report, c: &Case, verbose: bool) {
     let dim = target.dim();
     let start = start_point(&target, &mut trng);
     let dens = Logged::new(target, false);
+    if c.target == "faulty" {
+        // non-fatal faults of every kind at seeded evaluations: divergences with NaN / infinite energy errors and with
+        // density errors, next to the finite-energy ones of the funnel cases
+        let kinds = [Fault::NegInfLogp, Fault::NanLogp, Fault::Recoverable, Fault::PosInfLogp, Fault::NanGrad, Fault::InfGrad];
+        let only = if c.seed % 3 == 0 { None } else { Some(kinds[(c.seed / 3 % 6) as usize]) };
+        let mut l = dens.log.lock().unwrap();
+        let mut k = 30 + trng.below(10);
+        while k < 4000 {
+            l.plan.insert(k, only.unwrap_or(*trng.choose(&kinds)));
+            k += 4 + trng.below(30);
+        }
+    }
+    let faulty = c.target == "faulty";
     let replay = case_json(c);
     let (mut chain, _skipped) = chain_on(c.preset, &patches, dens, c.seed).expect("settings");
     if let Err(e) = chain.set_position(&start) {
@@ -126,10 +139,21 @@ fn run_case(report: &mut Report, c: &Case, verbose: bool) {
         match chain.draw() {
             Ok(o) => outs.push(o),
             Err(e) => {
+                if faulty {
+                    // an injected fault hit an evaluation the chain cannot retry (C05 / C13 territory)
+                    report.inconclusive("injected fault made a draw fail");
+                    if verbose {
+                        eprintln!("draw {d}: {e}");
+                    }
+                    break;
+                }
                 report.violation(format!("C16:{pname}:draw_error"), format!("draw {d}: {e}"), replay.clone());
                 return;
             }
         }
+    }
+    if outs.is_empty() {
+        return;
     }
     let mut present: HashMap<String, u64> = HashMap::new();
     let mut n_div = 0u64;
@@ -342,14 +366,19 @@ fn run_case(report: &mut Report, c: &Case, verbose: bool) {
 
 pub fn run(args: &Args, report: &mut Report) {
     report.rule = "cases = 6 presets x 32 option sets (store_gradient/unconstrained/transformed/divergences/mass_matrix) x dims \
-        {0,1,3,17} (MCLMC: {2,3,17}) x target (scaled Gaussian; funnel with a tight energy limit for divergences), 55 draws each \
+        {0,1,3,17} (MCLMC: {2,3,17}) x target (scaled Gaussian; funnel with a tight energy limit for divergences; Gaussian with injected NaN / +-inf logp, \
+        NaN / inf gradients and recoverable errors for divergences without a finite energy error), 55 draws each \
         through warmup with transformation updates; distinct = (preset, flags, dim, saw divergence, saw update)".into();
     if let Some(r) = &args.replay {
         let c = Case {
             preset: Preset::from_name(r["preset"].as_str().unwrap()).unwrap(),
             flags: r["flags"].as_u64().unwrap() as u32,
             dim: r["dim"].as_u64().unwrap() as usize,
-            target: if r["target"].as_str().unwrap() == "funnel" { "funnel" } else { "scaled" },
+            target: match r["target"].as_str().unwrap() {
+                "funnel" => "funnel",
+                "faulty" => "faulty",
+                _ => "scaled",
+            },
             seed: r["seed"].as_u64().unwrap(),
         };
         run_case(report, &c, true);
@@ -362,8 +391,8 @@ pub fn run(args: &Args, report: &mut Report) {
         for flags in 0..32u32 {
             let dims: &[usize] = if preset.is_nuts() { &[0, 1, 3, 17] } else { &[2, 3, 17] };
             for &dim in dims {
-                for target in ["scaled", "funnel"] {
-                    if target == "funnel" && dim < 2 {
+                for target in ["scaled", "funnel", "faulty"] {
+                    if (target == "funnel" && dim < 2) || (target == "faulty" && dim == 0) {
                         continue;
                     }
                     for _ in 0..reps {
